@@ -7,7 +7,7 @@ MANIFEST = dict(
          "to exactly one worker; workers are intercepted by a pthread monitor. Worker frames / MT==ST on bounded shapes; condensed index map "
          "bijection facts for n <= 64.",
     note="pthread_create/join replaced by a monitor (assumed contract: a worker runs once between create and join). Thread count bounded "
-         "(8 quick / 24 thorough) by unwinding; rows symbolic <= 2^20. MDC and k-means++ slicing loops are embedded in data-dependent outer "
+         "(8 quick / 24 thorough) by unwinding; rows symbolic <= 2^20. The slicing loops of MDC and KMeansppCenters (2 of the 10 sites, same pattern) are embedded in data-dependent outer "
          "loops and are not covered. Numerical distance axioms (triangle inequality etc.) not decided.",
     technique="CBMC on the real slicing loops with a pthread monitor contract; rows symbolic, thread count by unwinding with unwinding assertions")
 
